@@ -36,17 +36,19 @@ Theorem C13_prod_to_sum_ring :
 Proof. exact prod_to_sum_ring. Qed.
 Print Assumptions C13_prod_to_sum_ring.
 
-(* the same ON THE TRANSLATED get_trig_moment, all b, c: with the formal monomial z^(m v) = e (m v)
-   in the place of dist.cf(m), the translated double sum (frequency 2(k1+k2) - cos_power -
-   sin_power, sign (-1)^(sin_power - k2), the two binomials) is (z^v - z^-v)^b (z^v + z^-v)^c and the
-   translated divisor is i^b 2^(c+b): the quotient is sin^b cos^c written with z = exp(i). *)
+(* the same ON THE TRANSLATED get_trig_moment, all b, c, v: for the Dirac law at v, whose
+   characteristic function is the formal monomial m |-> z^(m v) = e (m v), the translated double sum
+   (frequency 2(k1+k2) - cos_power - sin_power, sign (-1)^(sin_power - k2), the two binomials) is
+   (z^v - z^-v)^b (z^v + z^-v)^c and the translated divisor is i^b 2^(c+b): the quotient is
+   sin^b(v) cos^c(v) written with z = exp(i). *)
 Theorem C13_prod_to_sum :
   forall (R : cring) (Iu : R) (e : Z -> R),
     e 0%Z = r1 -> (forall m n, e (m + n)%Z = rmul (e m) (e n)) ->
     forall (b c : nat) (v : Z),
-      get_trig_moment_num R Iu (fun m => e (m * v)%Z) (fun _ m => e (m * v)%Z) [("Sin", b); ("Cos", c)]
+      let L := dirac R v in
+      get_trig_moment_num R Iu (mom_of R L) (tf_of e L) (dtf_of e Iu L) [("Sin", b); ("Cos", c)]
       = rmul (rpow (rsub (e v) (e (- v)%Z)) b) (rpow (radd (e v) (e (- v)%Z)) c)
-      /\ get_trig_moment_den R Iu (fun m => e (m * v)%Z) (fun _ m => e (m * v)%Z) [("Sin", b); ("Cos", c)]
+      /\ get_trig_moment_den R Iu (mom_of R L) (tf_of e L) (dtf_of e Iu L) [("Sin", b); ("Cos", c)]
          = rmul (rpow Iu b) (rpow (zr 2) (c + b)).
 Proof. exact prod_to_sum_gen. Qed.
 Print Assumptions C13_prod_to_sum.
@@ -54,10 +56,10 @@ Print Assumptions C13_prod_to_sum.
 (* ===== trigonometric moments of integer-supported finite laws ======================== *)
 
 (* ALL identity/sin/cos powers (whatever the request dict holds), ALL finite integer-supported
-   laws (Bernoulli, DiscreteUniform, Categorical-like: any list of (weight, integer)), in every
-   commutative ring with sn, cs satisfying Euler's formulas 2 i sin v = e v - e (-v),
+   laws of total mass 1 (Bernoulli, DiscreteUniform, Categorical-like: any list of (weight, integer)),
+   in every commutative ring with sn, cs satisfying Euler's formulas 2 i sin v = e v - e (-v),
    2 cos v = e v + e (-v):
-     translated numerator (with the law's cf and its formal t-derivatives)
+     translated numerator (dist.get_moment, dist.cf and its formal t-derivatives being those of L)
        = translated divisor * sum_j p_j v_j^a sin(v_j)^b cos(v_j)^c. *)
 Theorem C13_trig_moment_discrete_exact :
   forall (R : cring) (Iu : R) (e : Z -> R),
@@ -66,8 +68,9 @@ Theorem C13_trig_moment_discrete_exact :
       (forall v, rmul (rmul (zr 2) Iu) (sn v) = rsub (e v) (e (- v)%Z)) ->
       (forall v, rmul (zr 2) (cs v) = radd (e v) (e (- v)%Z)) ->
       forall (L : zlaw R) (fp : fdict),
-        get_trig_moment_num R Iu (tf_of e L) (dtf_of e Iu L) fp
-        = rmul (get_trig_moment_den R Iu (tf_of e L) (dtf_of e Iu L) fp)
+        Ez L (fun _ => r1) = r1 ->
+        get_trig_moment_num R Iu (mom_of R L) (tf_of e L) (dtf_of e Iu L) fp
+        = rmul (get_trig_moment_den R Iu (mom_of R L) (tf_of e L) (dtf_of e Iu L) fp)
                (Ez L (fun v => rmul (rmul (rpow (zr v) (fget "Id" fp)) (rpow (sn v) (fget "Sin" fp)))
                                     (rpow (cs v) (fget "Cos" fp)))).
 Proof. exact trig_moment_discrete_exact. Qed.
@@ -207,10 +210,10 @@ Print Assumptions C13_dispatch_mixed_decided_by_witness.
 Theorem C13_dispatch_refuted_if_witness_trig :
   get_func_moment mixed_witness = DTrig ->
   exists fp, has_trig fp = true /\ has_exp fp = true /\ get_func_moment fp = DTrig /\
-    forall (R : cring) (Iu : R) (cf : Z -> R) (dcf : nat -> Z -> R),
+    forall (R : cring) (Iu : R) (mom : nat -> R) (cf : Z -> R) (dcf : nat -> Z -> R),
       (* the answer is that of the request without the Exp power *)
-      get_trig_moment_num R Iu cf dcf fp = get_trig_moment_num R Iu cf dcf [("Sin", 1%nat)] /\
-      get_trig_moment_den R Iu cf dcf fp = get_trig_moment_den R Iu cf dcf [("Sin", 1%nat)].
+      get_trig_moment_num R Iu mom cf dcf fp = get_trig_moment_num R Iu mom cf dcf [("Sin", 1%nat)] /\
+      get_trig_moment_den R Iu mom cf dcf fp = get_trig_moment_den R Iu mom cf dcf [("Sin", 1%nat)].
 Proof. exact dispatch_refuted_if_witness_trig. Qed.
 Print Assumptions C13_dispatch_refuted_if_witness_trig.
 
@@ -240,19 +243,26 @@ Print Assumptions C13_convert_exact.
 (* Gaussian rationals, e m = i^m (angle pi/2): all hypotheses of the main theorem hold *)
 Example C13_trig_model_instance :
   forall (L : zlaw G) (fp : fdict),
-    get_trig_moment_num G gi (tf_of e4 L) (dtf_of e4 gi L) fp
-    = rmul (get_trig_moment_den G gi (tf_of e4 L) (dtf_of e4 gi L) fp)
+    Ez L (fun _ => r1) = r1 ->
+    get_trig_moment_num G gi (mom_of G L) (tf_of e4 L) (dtf_of e4 gi L) fp
+    = rmul (get_trig_moment_den G gi (mom_of G L) (tf_of e4 L) (dtf_of e4 gi L) fp)
            (Ez L (fun v => rmul (rmul (rpow (zr v) (fget "Id" fp)) (rpow (sn4 v) (fget "Sin" fp)))
                                 (rpow (cs4 v) (fget "Cos" fp)))).
 Proof. exact (trig_moment_discrete_exact G gi e4 e4_0 e4_add sn4 cs4 sn4_def cs4_def). Qed.
 
-(* X ~ DiscreteUniform(-1, 2) at angle pi/2, request X^2 sin(X) cos(X)^2... evaluated by the kernel:
-   num = den * E[X^1 sin X] with E = (1/4)(-1 * -1 + 0 + 1 * 1 + 0) = 1/2, den = i^2 * 2 = -2 *)
+(* X ~ DiscreteUniform(-1, 2) at angle pi/2, request X sin(X), evaluated by the kernel:
+   num = den * E[X sin X] with E = (1/4)(-1 * -1 + 0 + 1 * 1 + 0) = 1/2, den = i^2 * 2 = -2;
+   request X sin^2(X) (frequency 0 occurs): E = (1/4)(-1 + 1) = 0 ... and X^2 cos^2(X):
+   E = (1/4)(0 + 0 + 0 + 4) = 1, den = i^2 * 4 = -4 *)
 Example C13_trig_model_run :
   let L : zlaw G := du_law G (gq (mkq 1 4)) (-1)%Z 4 in
-  reqb (get_trig_moment_num G gi (tf_of e4 L) (dtf_of e4 gi L) [("Id", 1%nat); ("Sin", 1%nat)]) (gq (mkq (-1) 1)) = true
-  /\ reqb (get_trig_moment_den G gi (tf_of e4 L) (dtf_of e4 gi L) [("Id", 1%nat); ("Sin", 1%nat)]) (gq (mkq (-2) 1)) = true.
-Proof. vm_compute. split; reflexivity. Qed.
+  let num fp := get_trig_moment_num G gi (mom_of G L) (tf_of e4 L) (dtf_of e4 gi L) fp in
+  let den fp := get_trig_moment_den G gi (mom_of G L) (tf_of e4 L) (dtf_of e4 gi L) fp in
+  reqb (num [("Id", 1%nat); ("Sin", 1%nat)]) (gq (mkq (-1) 1)) = true
+  /\ reqb (den [("Id", 1%nat); ("Sin", 1%nat)]) (gq (mkq (-2) 1)) = true
+  /\ reqb (num [("Id", 2%nat); ("Cos", 2%nat)]) (gq (mkq (-4) 1)) = true
+  /\ reqb (den [("Id", 2%nat); ("Cos", 2%nat)]) (gq (mkq (-4) 1)) = true.
+Proof. vm_compute. repeat split; reflexivity. Qed.
 
 (* the dispatch model is not vacuous: a pure trig, a pure exp and an unknown request *)
 Example C13_dispatch_run :
